@@ -114,19 +114,26 @@ void cimba_run_experiment(void *your_experiment_array,
     cmg_trial_func = your_trial_func;
     cmg_total_trials = num_trials;
 
-    /* Start the worker threads and let them help themselves to the trials */
+    /*
+     * Start the worker threads and let them help themselves to the trials.
+     * A trial that calls cmb_logger_error() takes its worker thread with it.
+     * If all workers are gone that way before the last trial has been handed
+     * out, start a new team for the remaining trials.
+     */
     const uint32_t ncores = cmi_cpu_cores();
     pthread_t *threads = cmi_calloc(ncores, sizeof(*threads));
-    for (uint64_t ui = 0u; ui < ncores; ui++) {
-        pthread_create(&threads[ui], NULL, worker_thread_func, (void *)ui);
-    }
+    do {
+        for (uint64_t ui = 0u; ui < ncores; ui++) {
+            pthread_create(&threads[ui], NULL, worker_thread_func, (void *)ui);
+        }
 
-    /* ...worker threads are executing your trials in the background here... */
+        /* ...worker threads are executing your trials in the background here... */
 
-    /* Wait for all worker threads to finish */
-    for (uint64_t ui = 0u; ui < ncores; ui++) {
-        pthread_join(threads[ui], NULL);
-    }
+        /* Wait for all worker threads to finish */
+        for (uint64_t ui = 0u; ui < ncores; ui++) {
+            pthread_join(threads[ui], NULL);
+        }
+    } while (__atomic_load_n(&cmg_next_trial_idx, __ATOMIC_SEQ_CST) < cmg_total_trials);
 
     cmi_free(threads);
 }
